@@ -99,6 +99,46 @@ def replay(c, variant=""):
     return ev
 
 
+def replay_reached_in_place(c):
+    """the instance reached by an in-place edit of a tree the rule object was asked about just before: the operands of the node
+    (or of one of its operands) are exchanged, the long-lived rule object is asked about the node, the operands are put back - the
+    very same node objects now form the schema instance - and the rule object is asked and applied, in place, without a clone or
+    another question in between. Whatever the rule object remembers about the node it saw last is stale by then."""
+    if not _RULES:
+        replay(c)
+    key = json.dumps(c["inp"], sort_keys=True) + str(c["path"])
+    rule = _RULES[(c["rule"], c["opt"], common.pick(key, 2))]
+    out = []
+    for which in ("left", "right", "self"):
+        tree = build_json(c["inp"])
+        node = navigate(tree, c["path"])
+        cand = node if which == "self" else getattr(node, which, None)
+        if cand is None or cand.left is None or cand.right is None:
+            continue
+        cand.left, cand.right = cand.right, cand.left               # the pre-image
+        try:
+            rule.can_apply_to(node)
+        except BaseException:  # noqa
+            pass
+        cand.left, cand.right = cand.right, cand.left               # back: the schema instance, same objects
+        ev = {"c": c, "applicable": False, "outcome": "ok", "res": {"k": "c", "n": 0, "d": 1}, "env": "reached by an in-place edit (%s operands exchanged and put back)" % which}
+        try:
+            ev["applicable"] = bool(rule.can_apply_to(node))
+        except BaseException as e:  # noqa
+            ev["outcome"] = "can_apply:" + type(e).__name__
+            out.append(ev)
+            continue
+        if ev["applicable"] and c["expect"] == "apply":
+            try:
+                res = rule.apply_to(node).result.get_root()
+                ev["res"] = project.term(res)
+                ev["printed"] = str(res)
+            except BaseException as e:  # noqa
+                ev["outcome"] = type(e).__name__
+        out.append(ev)
+    return out
+
+
 def _var_ids(t):
     if t["k"] == "v":
         return {t["id"]}
@@ -129,6 +169,9 @@ def replay_envs(c):
             if ev4 is not None and (ev4["applicable"], ev4["outcome"]) != (ev["applicable"], ev["outcome"]):
                 ev4["env"] = "same letter in the other case"
                 out.append(ev4)
+    for ev5 in replay_reached_in_place(c):
+        if (ev5["applicable"], ev5["outcome"], ev5["res"]) != (ev["applicable"], ev["outcome"], ev["res"]):
+            out.append(ev5)
     if c["expect"] == "apply" and not c["hole"]:
         ev3 = replay(c, "floatexp")
         if ev3 is not None and (ev3["applicable"], ev3["outcome"]) != (ev["applicable"], ev["outcome"]):
